@@ -254,7 +254,8 @@ def run_one(tape, cfg):
             Y = apply(kind, base(kind, n2, 50), "Y")
             two = tape.chance(1, 2, "two")
             ny_expected = n2
-            if two and kind == "array" and n1 >= 2 and tape.chance(1, 2, "y_from_part_of_x"):
+            if kind == "array" and n1 >= 2 and tape.chance(3, 4, "y_from_part_of_x"):
+                two = True
                 # the second input is built from only some of the chunks of the first: the
                 # checkpoint still has to wait for every chunk of both
                 k = 1 + tape.draw(n1 - 1, "xpart")
